@@ -484,7 +484,7 @@ func sortStrings(s []string) {
 func init() {
 	register(&CheckDef{
 		ID: "C02", Build: "instr", Run: c0203Run("meaning"), RunCase: c0203RunCase("meaning"),
-		Rule:        "states = reference-graph alphabet (h/graphgen.go): every digraph on <= n nodes reachable from the entry node, swept against every placement of the nodes over documents in 7 directory relations, every $ref spelling, every keyword position of an edge, every entry element (definition, parameter, response, path item, chains of parameter/response/path-item refs over 1-3 documents), target shapes, names needing escapes, AbsoluteCircularRef on/off; each executed by the real ExpandSpec under every map iteration order within the bound; oracle = bisimilarity of every root element of input and output universes (reference model in h/model.go); non-trivial = graph with at least one edge",
+		Rule:        "states = reference-graph alphabet (h/graphgen.go): every digraph on <= n nodes reachable from the entry node, swept against every placement of the nodes over documents in 14 relations (h/graphgen.go: directories, sites, ports, queries, names that extend one another; the universe also re-homed on a remote site), every $ref spelling, every keyword position of an edge, every entry element (definition, parameter, response, path item, chains of parameter/response/path-item refs over 1-3 documents), target shapes, names needing escapes, AbsoluteCircularRef on/off; each executed by the real ExpandSpec under every map iteration order within the bound; oracle = bisimilarity of every root element of input and output universes (reference model in h/model.go); non-trivial = graph with at least one edge",
 		Assumptions: []string{"generated inputs are well-formed: every $ref resolvable, no id, no $ref siblings; ill-formed ones belong to C04/C08", "RFC 3986 resolution of the oracle is net/url.ResolveReference, independent of the library's normalizer", "a spurious error is judged by C08, a crash or runaway by C04"},
 		MinOutcomes: 1,
 	})
